@@ -379,7 +379,7 @@ func (e *Exec) errorText(itf Iface) Str {
 	if itf.T == nil {
 		return e.mkStr("<nil>")
 	}
-	if m := e.p.Prog.LookupMethod(itf.T, nil, "Error"); m != nil {
+	if m := e.findMethod(itf.T, "Error"); m != nil {
 		if s, ok := e.callValue(m, itf.V).(Str); ok {
 			return s
 		}
@@ -394,12 +394,12 @@ func (e *Exec) formatValue(v Value, verb byte) Str {
 			return e.mkStr("<nil>")
 		}
 		if verb != 'd' {
-			if m := e.p.Prog.LookupMethod(v.T, nil, "Error"); m != nil && verb != 'T' {
+			if m := e.findMethod(v.T, "Error"); m != nil && verb != 'T' {
 				if p, isPtr := v.V.(*Value); !isPtr || p != nil {
 					return e.errorText(v)
 				}
 			}
-			if m := e.p.Prog.LookupMethod(v.T, nil, "String"); m != nil && m.Signature.Params().Len() == 0 {
+			if m := e.findMethod(v.T, "String"); m != nil && m.Signature.Params().Len() == 0 {
 				if p, isPtr := v.V.(*Value); !isPtr || p != nil {
 					if s, ok := e.callValue(m, v.V).(Str); ok {
 						return s
@@ -561,12 +561,12 @@ func (e *Exec) errorsIs(err, target Iface, depth int) bool {
 			return true
 		}
 	}
-	if m := e.p.Prog.LookupMethod(err.T, nil, "Is"); m != nil && m.Signature.Params().Len() == 1 {
+	if m := e.findMethod(err.T, "Is"); m != nil && m.Signature.Params().Len() == 1 {
 		if e.decide(e.callValue(m, err.V, target).(*smt.Term)) {
 			return true
 		}
 	}
-	if m := e.p.Prog.LookupMethod(err.T, nil, "Unwrap"); m != nil && m.Signature.Params().Len() == 0 && m.Signature.Results().Len() == 1 {
+	if m := e.findMethod(err.T, "Unwrap"); m != nil && m.Signature.Params().Len() == 0 && m.Signature.Results().Len() == 1 {
 		r := e.callValue(m, err.V)
 		switch r := r.(type) {
 		case Iface:
@@ -606,7 +606,7 @@ func errorsAs(e *Exec, _ *frame, fn *ssa.Function, a []Value) Value {
 			e.store(tgt.V.(*Value), err.V)
 			return e.c.True
 		}
-		m := e.p.Prog.LookupMethod(err.T, nil, "Unwrap")
+		m := e.findMethod(err.T, "Unwrap")
 		if m == nil || m.Signature.Params().Len() != 0 {
 			break
 		}
@@ -783,4 +783,15 @@ func (e *Exec) callOpaqueMethod(caller *frame, m *opaqueMethod, args []Value) Va
 	ret := e.resultsOf(m.sig, m.recv.Name+"."+m.name)
 	e.callLog = append(e.callLog, &CallRec{Fn: "(" + m.recv.Name + ")." + m.name, Args: append([]Value{m.recv}, args...), Ret: ret})
 	return ret
+}
+
+// findMethod returns the method named name in t's method set, or nil.
+func (e *Exec) findMethod(t types.Type, name string) *ssa.Function {
+	ms := e.p.Prog.MethodSets.MethodSet(t)
+	for i := 0; i < ms.Len(); i++ {
+		if ms.At(i).Obj().Name() == name {
+			return e.p.Prog.MethodValue(ms.At(i))
+		}
+	}
+	return nil
 }
